@@ -80,7 +80,16 @@ Twice(sq) == [i \in 1..(2 * Len(sq)) |-> sq[(i + 1) \div 2]]
 Few(S) ==
   LET FP == {b \in S : b.from \in F}
       HP == S \ FP
-  IN IF OrdMode = "min"    \* three orders per node: faulty packets last / first / split around the honest ones
+  IN IF OrdMode = "eq2"    \* two equivocators: which one is caught first, then where duplicates land
+     THEN LET fs == {b.from : b \in FP}
+          IN IF Cnt(fs) # 2 THEN {Asc(S)}
+             ELSE LET a == MinOf(fs)
+                      b == MinOf(fs \ {a})
+                      pk(f) == Asc({x \in FP : x.from = f})
+                  IN {Asc(HP) \o pk(o[1]) \o pk(o[2]) \o t :
+                        o \in {<<a, b>>, <<b, a>>}, t \in {<<pk(a)[1]>>, <<pk(b)[1]>>, Asc(S)}}
+     ELSE
+     IF OrdMode = "min"    \* three orders per node: faulty packets last / first / split around the honest ones
      THEN {Asc(HP) \o Asc(FP), Asc(FP) \o Asc(HP)}
           \cup (IF FP = {} THEN {} ELSE {<<Asc(FP)[1]>> \o Asc(HP) \o Tail(Asc(FP))})
      ELSE
